@@ -35,9 +35,15 @@ repro_py = H.repro_py
 KINDS = H.ALL_KINDS
 
 
+COORD_KINDS = ["updcoords", "updcoords", "updtbl", "updtbl", "getref", "append", "setitem", "get"]
+
+
 def streams(tier, rng):
     n = 300 if tier == "quick" else 6000
     yield ("random-histories", [H.gen_case(rng, KINDS) for _ in range(n)], False)
+    # coordinate updates need particular images (reflections through 0, re-orderings whose last
+    # pair is in order ...): a stream that is mostly updateCoords on dense-ish fibers
+    yield ("coordinate-updates", [H.gen_case(rng, COORD_KINDS, maxlen=6, depths=(1, 1, 2)) for _ in range(n // 2)], False)
 
 
 def search(disagreeing, rng, rnd):
